@@ -149,6 +149,8 @@ def merge_oracle(et, events, result):
     if conflict:
         return 'instances share a version and differ, but no merge conflict was reported'
     res = result['ok']
+    if res.get('xml', 'same') != 'same':
+        return 'the XML element of the merged event holds %r while the event shows %r' % (res['xml'], res['props'])
     order = sorted(events, key=lambda e: version_of(et, e)) if vp else list(events)
     if res['type'] != 't' or res['source'] != '/a/':
         return 'type or source changed'
@@ -205,11 +207,21 @@ def merge_oracle(et, events, result):
 
 def view_of(sdk_event):
     v = gen.event_view(sdk_event)
-    return {'type': v['type'], 'source': v['source'], 'props': v['props'], 'parents': v['parents']}
+    out = {'type': v['type'], 'source': v['source'], 'props': v['props'], 'parents': v['parents'], 'xml': 'same'}
+    if hasattr(sdk_event, 'get_element'):
+        # the element a writer gets (and a copy is made from) holds what the API shows
+        from vf.props import c07
+        try:
+            xml_props = c07.element_view(sdk_event)['props']
+            if xml_props != v['props']:
+                out['xml'] = xml_props
+        except Exception as ex:
+            out['xml'] = 'err:' + type(ex).__name__
+    return out
 
 
 def model_view(j):
-    return {'type': j['type'], 'source': j['source'], 'props': j['props'], 'parents': j['parents']}
+    return {'type': j['type'], 'source': j['source'], 'props': j['props'], 'parents': j['parents'], 'xml': 'same'}
 
 
 class C04(Property):
